@@ -211,3 +211,44 @@ Theorem C05_traverse_check_string_fuel_is_enough : forall bs f,
   (exists b, traverse_check_string_b bs f = Ok b) \/ traverse_check_string_b bs f = Panic.
 Proof. exact traverse_check_string_b_total. Qed.
 Print Assumptions C05_traverse_check_string_fuel_is_enough.
+(* ---- key existence on the bytes (KeysWalk.v: exists_all_keys / exists_any_keys / exists_jsonb_key over iteate_object_keys
+   with `break` and iterate_array skipping the entries that are not strings, a key that is not UTF-8 answered as the code
+   does, the keys tested one after the other with early return): on the encoding of any well-formed v the answers are the
+   tree answers on v itself, for every list of keys; no read fails, nothing panics. *)
+From JB Require Import KeysWalk KeysWalkProofs.
+
+Theorem C05_exists_keys_bytes : forall v ks, wfb v = true -> top_ok v ->
+  exists_all_keys_w (enc v) ks = Ok (exists_all_keys_t v ks) /\
+  exists_any_keys_w (enc v) ks = Ok (exists_any_keys_t v ks).
+Proof. intros v ks H T. split; [apply exists_all_keys_w_enc|apply exists_any_keys_w_enc]; assumption. Qed.
+Print Assumptions C05_exists_keys_bytes.
+
+(* the single look-up both are made of *)
+Theorem C05_exists_jsonb_key_bytes : forall v key, wfb v = true ->
+  exists_jsonb_key_w (enc v) (header_default (enc v)) key = Ok (has_key v key).
+Proof. exact exists_jsonb_key_w_enc. Qed.
+Print Assumptions C05_exists_jsonb_key_bytes.
+
+(* and they agree with the view-level models the C05_exists_all_keys theorem above is about *)
+Theorem C05_exists_keys_bytes_agree_with_view : forall v ks, wfb v = true -> top_ok v ->
+  exists_all_keys_w (enc v) ks = exists_all_keys_m (enc v) ks /\ exists_any_keys_w (enc v) ks = exists_any_keys_m (enc v) ks.
+Proof. intros v ks H T. split; [apply exists_all_keys_w_agrees_m|apply exists_any_keys_w_agrees_m]; assumption. Qed.
+Print Assumptions C05_exists_keys_bytes_agree_with_view.
+
+(* an object (keys), an array (string elements only; the number 1 and the nested string do not count), a scalar;
+   a key that is not UTF-8 makes `all` false and is skipped by `any` *)
+Definition c05_obj : value := VObj [([97], VNull); ([98; 99], VArr [VStr [120]]); ([195; 169], VNum (NUInt 1))].
+Definition c05_arr : value := VArr [VNum (NUInt 1); VStr [97]; VArr [VStr [122]]; VStr [98; 99]].
+Example C05_exists_keys_bytes_example :
+  wfb c05_obj = true /\ wfb c05_arr = true /\
+  exists_all_keys_w (enc c05_obj) [[97]; [195; 169]; [98; 99]] = Ok true /\
+  exists_all_keys_w (enc c05_obj) [[97]; [120]] = Ok false /\
+  exists_any_keys_w (enc c05_obj) [[120]; [98]; [98; 99]] = Ok true /\
+  exists_any_keys_w (enc c05_obj) [[120]; [98]] = Ok false /\
+  exists_all_keys_w (enc c05_arr) [[98; 99]; [97]] = Ok true /\
+  exists_any_keys_w (enc c05_arr) [[122]; [49]] = Ok false /\
+  exists_all_keys_w (enc c05_arr) [[97]; [255]] = Ok false /\
+  exists_any_keys_w (enc c05_arr) [[255]; [97]] = Ok true /\
+  exists_any_keys_w (enc (VStr [97])) [[97]] = Ok false /\
+  exists_all_keys_w (enc (VStr [97])) [] = Ok true.
+Proof. vm_compute. repeat split; reflexivity. Qed.
